@@ -281,7 +281,9 @@ LABEL_SETS = {
 
 
 # label sets used by dedicated cases only (not part of the full product)
-LABEL_SETS_EXTRA = {"four": [47, 3, 20, 11], "fourstr": ["dog", "ant", "cat", "bee"]}  # four classes, listed unsorted
+LABEL_SETS_EXTRA = {"four": [47, 3, 20, 11], "fourstr": ["dog", "ant", "cat", "bee"],
+                    # strings of unequal length; the label that sorts first is the shortest
+                    "uneq2": ["yes", "no"], "uneq3": ["b", "cattle", "ant"]}  # four classes, listed unsorted
 
 
 def label_array(labels, ks, as_series=False):
